@@ -415,34 +415,55 @@ def load_inputs(seed, n_mut, n_rand, repo):
     return res
 
 
-def run_loads(inputs, work, jobs=4, also_unmutated=()):
-    """Load every configuration text with the real binary. -> observations for LibValid.tla MODE=judgeload."""
+def run_loads(inputs, work, jobs=4, harness=None):
+    """Load every configuration text with the real binary. -> observations for LibValid.tla MODE=judgeload.
+    cppcheck always loads its own std.cfg first, so a variant of std.cfg is rejected at its first <define> as a
+    duplicate and the rest of the text is never read: those variants go through Library::load in the unit harness
+    (one process per text), which has nothing preloaded."""
     d = os.path.join(work, "load")
     os.makedirs(d, exist_ok=True)
     with open(os.path.join(d, "empty.c"), "w") as f:
         f.write("void t(void) {}\n")
+    with open(os.path.join(d, "nocases.txt"), "w") as f:
+        f.write("")
 
     def one(item):
         name, kind, text = item
         p = os.path.join(d, name)
         with open(p, "wb") as f:
             f.write(text.encode("utf-8", "surrogateescape"))
-        rc, out, err = run_cppcheck(["-q", "--library=" + p, "empty.c"], cwd=d, timeout=120)
-        allout = out + err
+        if harness and name.endswith("-std.cfg"):
+            rc, out, err = vlib.run([harness, p, "nocases.txt"], cwd=d, timeout=120)
+            m = re.match(r"LOAD (\d+)", out)
+            if rc == 0 and m:
+                loaded = m.group(1) in ("0", "3")
+                rc, msg = (0 if loaded else 1), not loaded
+            else:
+                msg = False
+            allout = out + err
+            via = "harness"
+        else:
+            rc, out, err = run_cppcheck(["-q", "--library=" + p, "empty.c"], cwd=d, timeout=120)
+            allout = out + err
+            msg = bool(re.search(r"^cppcheck: ", allout, re.M))
+            via = "binary"
         os.unlink(p)
-        return {"name": name, "kind": kind, "rc": -1 if (rc is None or rc < 0) else rc, "signal": -rc if (rc is not None and rc < 0) else 0,
-                "timeout": rc is None, "msg": bool(re.search(r"^cppcheck: ", allout, re.M)), "out": allout[-300:]}
+        return {"name": name, "kind": kind, "via": via, "rc": -1 if (rc is None or rc < 0) else rc, "signal": -rc if (rc is not None and rc < 0) else 0,
+                "timeout": rc is None, "msg": msg, "out": allout[-300:]}
     with concurrent.futures.ThreadPoolExecutor(max_workers=jobs) as ex:
         return list(ex.map(one, inputs))
 
 
 # ----------------------------------------------------------------------------------------- minimising a fatal configuration
-def load_once(text, d, name="min.cfg"):
-    """-> (signal or 0, timeout, output tail) of loading one configuration text with the real binary"""
+def load_once(text, d, name="min.cfg", harness=None):
+    """-> (signal or 0, timeout, output tail) of loading one configuration text with the real binary (or the harness)"""
     p = os.path.join(d, name)
     with open(p, "wb") as f:
         f.write(text.encode("utf-8", "surrogateescape"))
-    rc, out, err = run_cppcheck(["-q", "--library=" + p, "empty.c"], cwd=d, timeout=120)
+    if harness:
+        rc, out, err = vlib.run([harness, p, "nocases.txt"], cwd=d, timeout=120)
+    else:
+        rc, out, err = run_cppcheck(["-q", "--library=" + p, "empty.c"], cwd=d, timeout=120)
     return (-rc if (rc is not None and rc < 0) else 0), rc is None, (out + err)[-300:]
 
 
@@ -470,14 +491,14 @@ def _ddmin(items, test, budget):
     return items
 
 
-def minimise(text, d, signal, budget=160):
+def minimise(text, d, signal, budget=160, harness=None):
     """Shrink a configuration text that kills the loader with `signal`, keeping that outcome. Works on the element tree
     if the text is well-formed XML, on lines otherwise. -> (minimal text, signature path)"""
     import xml.etree.ElementTree as ET
     left = [budget]
 
     def fails(t):
-        sig, _to, _o = load_once(t, d)
+        sig, _to, _o = load_once(t, d, harness=harness)
         return sig == signal
     try:
         root = ET.fromstring(text.encode("utf-8", "surrogateescape"))
